@@ -1119,10 +1119,116 @@ impl Part for StyledPrograms {
     }
 }
 
-crate::declare_parts!(WsModel, Delimiters, PlainText, StyledPrograms);
+
+// ------------------------------------------------------------------ (e) odd but accepted configurations
+
+/// Delimiter configurations that look risky - end delimiters that begin with a marker character
+/// (HTML comment style) or with whitespace, start delimiters that end in one - against a fixed
+/// set of probe templates. The rule is the property's: *if* the builder accepts a configuration,
+/// a template re-spelled with it renders like the default spelling (the builder may also reject
+/// the configuration; then there is nothing to check).
+#[derive(Clone, Debug, Serialize, Deserialize)]
+pub struct ValidityCase {
+    pub syntax: Syntax,
+    pub probe: u8,
+}
+
+pub struct OddConfigurations;
+
+fn odd_syntaxes() -> Vec<Syntax> {
+    vec![
+        syn("<!--", "-->", "${", "}", "<#", "#>"),
+        syn("{%", "%}", "{{", "}}", "<!--", "-->"),
+        syn("<!--%", "-->", "<!--=", "-->", "<!--#", "-->"),
+        syn("{-", "-}", "{=", "=}", "{#", "#}"),
+        syn("[+", "+]", "[[", "]]", "[#", "#]"),
+        syn("{%", "%}", "{{", "-}}", "{#", "-#}"),
+        syn("{%", " %}", "{{", "}}", "{#", "#}"),
+        syn("{%", "%}", "{{", "\t}}", "{#", "#}"),
+        syn("{%", "%}", "{{", "}}", "{#", " #}"),
+        syn("<%-", "%>", "<%=", "%>", "<%#", "%>"),
+    ]
+}
+
+/// probe templates as (pieces); B/E = block start/end, V/W = variable start/end, C/D = comment start/end
+const PROBES: [&str; 12] = [
+    "A<B> if t <E>a<B> endif <E>Z",
+    "A <B>- if t -<E> a <B>- endif -<E> Z",
+    "A <B>+ if t +<E> a <B>+ endif +<E> Z",
+    "A<B> raw <E>r {{ y }} r<B> endraw <E>Z",
+    "A <B>- raw -<E> r <B>- endraw -<E> Z",
+    "A<V> x <W>|<V>- x -<W>|<V>+ x +<W>Z",
+    "A<C> c <D>|<C>- c -<D> | <C>+ c +<D>Z",
+    "A<C><D>Z",
+    "A<C>+<D>\n  Z",
+    "A<C>-<D>\n  Z",
+    "A<B>if t<E>a<B>endif<E><V>x<W>Z",
+    "A<B> for q in [1, 2] <E><V> q <W>,<B> endfor <E><B> set n = -1 <E><V> n <W>Z",
+];
+
+fn spell(probe: &str, s: &Syntax) -> String {
+    probe
+        .replace("<B>", &s.block_start)
+        .replace("<E>", &s.block_end)
+        .replace("<V>", &s.var_start)
+        .replace("<W>", &s.var_end)
+        .replace("<C>", &s.comment_start)
+        .replace("<D>", &s.comment_end)
+}
+
+impl Part for OddConfigurations {
+    type Case = ValidityCase;
+    const NAME: &'static str = "accepted_configurations_work";
+
+    fn strategy(_tier: Tier) -> BoxedStrategy<ValidityCase> {
+        let all = Self::enumeration(Tier::Quick);
+        (0..all.len()).prop_map(move |i| all[i].clone()).boxed()
+    }
+
+    fn enumeration(_tier: Tier) -> Vec<ValidityCase> {
+        let mut out = vec![];
+        for syntax in odd_syntaxes() {
+            for probe in 0..PROBES.len() as u8 {
+                out.push(ValidityCase { syntax: syntax.clone(), probe });
+            }
+        }
+        out
+    }
+
+    fn check(c: &ValidityCase) -> Verdict {
+        let mut v = Verdict::pass(true);
+        let Ok(cfg) = c.syntax.to_config() else {
+            v.nontrivial = false;
+            v.labels.push("rejected_by_builder");
+            return v;
+        };
+        let probe = PROBES[c.probe as usize % PROBES.len()];
+        let ctx = || Value::from_pairs([("t", Value::from(true)), ("x", Value::from("X"))]);
+        let mut base = Environment::new();
+        base.set_keep_trailing_newline(true);
+        let want = base.render_named_str("t.txt", &spell(probe, &Syntax::default()), ctx());
+        let mut env = Environment::new();
+        env.set_keep_trailing_newline(true);
+        env.set_syntax(cfg);
+        let src = spell(probe, &c.syntax);
+        // the default spelling of `{{ y }}` inside the raw probe is plain text under other delimiters too
+        let got = env.render_named_str("t.txt", &src, ctx());
+        match (want, got) {
+            (Ok(a), Ok(b)) if a == b => {}
+            (Err(_), Err(_)) => v.labels.push("both_fail"),
+            (a, b) => v.set_fail(
+                "accepted_configuration_misbehaves",
+                format!("{:?} is accepted by the builder; the default spelling renders {a:?}, the re-spelled template {src:?} renders {b:?}", c.syntax),
+            ),
+        }
+        v
+    }
+}
+
+crate::declare_parts!(WsModel, Delimiters, PlainText, StyledPrograms, OddConfigurations);
 
 pub fn run(ctx: &mut Ctx) {
-    ctx.rule = "(a) sequences of up to 8 segments: text over {space, tab, LF, CRLF, lone CR between letters, x, braces, %, #, NBSP, form feed, -, +} and tags {variable, block, comment, raw with content incl. tag look-alikes} with every marker in {none,-,+} on either side (and on both raw tags) x the 8 settings, compared with an independent model of the rules (one trailing line ending; - eats all adjacent whitespace; trim_blocks eats one line ending after block/comment/raw tags; lstrip_blocks eats horizontal whitespace between line start and a block/comment/raw tag; + disables the last two); all sequences of length <= 2 and all text-tag-text / tag-text-tag triples over a 37-symbol alphabet enumerated. (b) free-mode single-file programs (non-extreme) whose text statements are drawn from partial and look-alike delimiters, printed with the default delimiters and with each of 12 delimiter sets (prefix-sharing <% <%= <%#, nested << <<<, single brace, LaTeX, shared end markers, @@..@@, HTML comments, %%, {%% {{{ {##, multi-byte): same rendering or same error kind. (c) text spelling default delimiters under a non-overlapping custom syntax is verbatim; a loop/if written with line statements and line comments renders like whole-line block tags, with LF and with CRLF line endings. Non-trivial: (a) a tag adjacent to text containing a line ending; (b) text containing the first character of a start delimiter. Distinct by case.".into();
+    ctx.rule = "(a) sequences of up to 8 segments: text over {space, tab, LF, CRLF, lone CR between letters, x, braces, %, #, NBSP, form feed, -, +} and tags {variable, block, comment, raw with content incl. tag look-alikes} with every marker in {none,-,+} on either side (and on both raw tags) x the 8 settings, compared with an independent model of the rules (one trailing line ending; - eats all adjacent whitespace; trim_blocks eats one line ending after block/comment/raw tags; lstrip_blocks eats horizontal whitespace between line start and a block/comment/raw tag; + disables the last two); all sequences of length <= 2 and all text-tag-text / tag-text-tag triples over a 37-symbol alphabet enumerated. (b) free-mode single-file programs (non-extreme) whose text statements are drawn from partial and look-alike delimiters, printed with the default delimiters and with each of 12 delimiter sets (prefix-sharing <% <%= <%#, nested << <<<, single brace, LaTeX, shared end markers, @@..@@, HTML comments, %%, {%% {{{ {##, multi-byte): same rendering or same error kind. (d) well-typed programs printed in a random style (delimiters, markers, spacing, raw texts, comments, line statements, 8 settings) against model::ws + the reference interpreter; (e) 10 odd but accepted configurations (HTML comment style, marker-like and whitespace-leading end delimiters) x 12 probes: accepted => renders like the default spelling. (c) text spelling default delimiters under a non-overlapping custom syntax is verbatim; a loop/if written with line statements and line comments renders like whole-line block tags, with LF and with CRLF line endings. Non-trivial: (a) a tag adjacent to text containing a line ending; (b) text containing the first character of a start delimiter. Distinct by case.".into();
     ctx.assumptions = vec![
         "a lone CR is kept out of positions adjacent to tags (whether it is a line boundary is not documented)".into(),
         "horizontal whitespace = Unicode whitespace other than CR/LF".into(),
@@ -1134,4 +1240,5 @@ pub fn run(ctx: &mut Ctx) {
     ctx.run_part::<Delimiters>(t.pick(100_000, 2_000_000));
     ctx.run_part::<PlainText>(t.pick(30_000, 300_000));
     ctx.run_part::<StyledPrograms>(t.pick(60_000, 3_000_000));
+    ctx.run_enumerated::<OddConfigurations>(OddConfigurations::enumeration(t), true);
 }
